@@ -475,6 +475,51 @@ func c20LongCheck(lc *explore.Local, _ struct{}, c c20Long) *explore.Fail {
 	return nil
 }
 
+// c20WaveWrite: channel 3 plays an all-zero wave at frequency F; K machine cycles after the trigger — every phase of
+// two wave-step periods — the guest writes V to wave RAM (which byte the write lands on while the channel plays is
+// C18's don't-care; the samples must stay in range whatever it hits).
+type c20WaveWrite struct {
+	F, K int
+	V    uint8
+	Addr uint16
+}
+
+func c20WaveWriteCheck(lc *explore.Local, _ struct{}, c c20WaveWrite) *explore.Fail {
+	m := machine.New(machine.ROMOnly(), machine.Opts{Audio: true, ChanCap: 4096})
+	w := m.Map.Write
+	w(0xff26, 0x00)
+	w(0xff26, 0x80)
+	w(0xff24, 0x77)
+	w(0xff25, 0xff)
+	for i := 0; i < 16; i++ {
+		w(0xff30+uint16(i), 0x00)
+	}
+	w(0xff1a, 0x80)
+	w(0xff1c, 0x20)
+	w(0xff1d, uint8(c.F))
+	w(0xff1e, 0x80|uint8(c.F>>8))
+	n := 0
+	for cyc := 0; cyc < c.K+600; cyc++ {
+		if cyc == c.K {
+			w(c.Addr, c.V)
+		}
+		m.A.EndMachineCycle()
+		l, r := drain(m)
+		for _, s := range [][]float32{l, r} {
+			for _, v := range s {
+				if f := float64(v); math.IsNaN(f) || math.IsInf(f, 0) || v < 0 || v >= 1 {
+					return explore.Failf("sample not finite or outside [0,1)", "channel 3 at f=%03x playing, %04x<-%02x written %d machine cycles after the trigger: a sample %d cycles after the trigger is %v", c.F, c.Addr, c.V, c.K, cyc, v)
+				}
+				n++
+			}
+		}
+	}
+	lc.Eval(1)
+	lc.Trans(n)
+	lc.Outcome(uint64(c.F)<<8 | uint64(c.V))
+	return nil
+}
+
 func init() {
 	register("C20", "model_checking", func(c *Ctx) {
 		if c.R != nil {
@@ -554,6 +599,24 @@ func init() {
 					}
 				}
 			}, func() struct{} { return struct{}{} }, c20RangeCheck)
+		explore.Product(c.R, "range-with-wave-ram-writes", explore.PartOpt{Bound: "one wave-RAM write at every machine cycle of two wave-step periods after the trigger, then 600 cycles", Domain: "channel 3 at f in {701, 7F0, 7FC, 400} x values {F7, FF, 7F, 8F} x FF30 / FF3F"},
+			func(yield func(c20WaveWrite) bool) {
+				for _, f := range []int{0x701, 0x7f0, 0x7fc, 0x400} {
+					span := (2048-f)/2*2 + 6
+					if span > 700 {
+						span = 700
+					}
+					for k := 0; k < span; k++ {
+						for _, v := range []uint8{0xf7, 0xff, 0x7f, 0x8f} {
+							for _, a := range []uint16{0xff30, 0xff3f} {
+								if !yield(c20WaveWrite{F: f, K: k, V: v, Addr: a}) {
+									return
+								}
+							}
+						}
+					}
+				}
+			}, func() struct{} { return struct{}{} }, c20WaveWriteCheck)
 		long := 1_250_000
 		if c.Thorough() {
 			long = 5_600_000 // 255 envelope steps at the slowest period would still be in range
